@@ -105,6 +105,9 @@ def judge(case, script, bucket, status, res, emit, err, unspec, expected_fn, nid
             emit({"v": "held", "b": bucket, "sample": {"script": script, "expected": "error", "got": f"{name} {code}"}})
         elif unspec:
             emit({"v": "inc", "why": "model unspecified and engine raised"})
+        elif not nonempty and isvtl:
+            # no datapoint exists: whether a constant sub-expression with an undefined value raises is not specified
+            emit({"v": "skip", "why": "VTL error on an input without datapoints (unspecified)"})
         else:
             msg = str(res)
             m = __import__("re").search(r"(Binder|Parser|Catalog|Conversion|Out of Range|Invalid Input|Not implemented) Error", msg)
@@ -118,7 +121,7 @@ def judge(case, script, bucket, status, res, emit, err, unspec, expected_fn, nid
             mech = f"{case['level']}/{shape}valid-expression-raises/{fam}"
             if fam == "decimal-scale-overflow":
                 nmul = _mul_depth(_tuplify(case["tree"]))
-                mech = f"number-multiplication-chain/decimal-scale-overflow/{'4-or-more-factors' if nmul >= 3 else 'fewer-than-4-factors'}"
+                mech = f"number-multiplication-chain/decimal-scale-overflow/{'4-or-more-factors' if nmul >= 3 else '3-factors' if nmul == 2 else 'two-factors'}"
             emit({"v": "viol", "b": bucket, "mech": mech,
                   "what": f"{script} raised {name} {code}: {str(res)[:200]} but every datapoint has a defined value", "case": case})
         return
@@ -540,7 +543,7 @@ def make_dsif_case(rng):
     cond = [[k, rng.choice([None, -2, 0, 1, 5])] for k in keys]
     mk = lambda base: [[k, None if rng.random() < 0.15 else float(base + k)] for k in keys]  # noqa: E731
     return {"level": "dataset-if", "form": rng.choice(["if", "case", "case2"]), "cond": cond, "then": mk(100), "else": mk(200), "mid": mk(300),
-            "thr": rng.choice([0, 1])}
+            "thr": rng.choice([0, 1]), "condform": rng.choice(["membership", "whole", "flipped", "negated"])}
 
 
 def run_dsif_case(case, emit):
@@ -551,12 +554,15 @@ def run_dsif_case(case, emit):
     dfs = {"DS_C": eng.mkdf(["Id_1", "Me_1"], [tuple(r) for r in case["cond"]]), "DS_1": eng.mkdf(["Id_1", "Me_1"], [tuple(r) for r in case["then"]]),
            "DS_2": eng.mkdf(["Id_1", "Me_1"], [tuple(r) for r in case["else"]]), "DS_3": eng.mkdf(["Id_1", "Me_1"], [tuple(r) for r in case["mid"]])}
     t = case["thr"]
+    cf = case.get("condform", "membership")
+    gt = {"membership": f"DS_C#Me_1 > {t}", "whole": f"DS_C > {t}", "flipped": f"{t} < DS_C", "negated": f"not (DS_C <= {t})"}[cf]
+    lt = {"membership": f"DS_C#Me_1 < {t}", "whole": f"DS_C < {t}", "flipped": f"{t} > DS_C", "negated": f"not (DS_C >= {t})"}[cf]
     if case["form"] == "if":
-        script = f"DS_r <- if DS_C#Me_1 > {t} then DS_1 else DS_2;"
+        script = f"DS_r <- if {gt} then DS_1 else DS_2;"
     elif case["form"] == "case":
-        script = f"DS_r <- case when DS_C#Me_1 > {t} then DS_1 else DS_2;"
+        script = f"DS_r <- case when {gt} then DS_1 else DS_2;"
     else:
-        script = f"DS_r <- case when DS_C#Me_1 > {t} then DS_1 when DS_C#Me_1 < {t} then DS_3 else DS_2;"   # exclusive conditions
+        script = f"DS_r <- case when {gt} then DS_1 when {lt} then DS_3 else DS_2;"   # exclusive conditions
     th, el, mid = dict(map(tuple, case["then"])), dict(map(tuple, case["else"])), dict(map(tuple, case["mid"]))
     exp = []
     outcomes = set()
@@ -570,7 +576,7 @@ def run_dsif_case(case, emit):
         else:
             exp.append((k, el[k]))
             outcomes.add("N" if c is None else "F")
-    bucket = f"dataset-{case['form']}/conditions={''.join(sorted(outcomes))}"
+    bucket = f"dataset-{case['form']}/{cf}/conditions={''.join(sorted(outcomes))}"
     status, res = eng.call(eng.run, script, st, dfs)
     judge(case, script, bucket, status, res, emit, False, False, lambda: exp, 1, True, ops={case["form"]})
 
